@@ -28,12 +28,12 @@ func taskAlphabet() []requests.SigningTask {
 		{MessageID: "t-same-b", File: "файл-юникод.txt", Payload: []byte("same payload")},
 		{MessageID: "t-emptyname", File: "", Payload: []byte("no file name")},
 		{MessageID: "t-emptypayload", File: "empty", Payload: []byte{}},
-		{MessageID: "r-empty-0", RangeStart: 0, RangeEnd: 0},
-		{MessageID: "r-first", RangeStart: 0, RangeEnd: 1},
-		{MessageID: "r-mid", RangeStart: 1000, RangeEnd: 1002},
-		{MessageID: "r-mid-overlap", RangeStart: 1001, RangeEnd: 1003},
-		{MessageID: "r-last", RangeStart: 18631, RangeEnd: 18632},
 		{MessageID: "r-empty-end", RangeStart: 18632, RangeEnd: 18632},
+		{MessageID: "r-last", RangeStart: 18631, RangeEnd: 18632},
+		{MessageID: "r-mid-overlap", RangeStart: 1001, RangeEnd: 1003},
+		{MessageID: "r-mid", RangeStart: 1000, RangeEnd: 1002},
+		{MessageID: "r-first", RangeStart: 0, RangeEnd: 1},
+		{MessageID: "r-empty-0", RangeStart: 0, RangeEnd: 0},
 	}
 }
 
